@@ -401,6 +401,14 @@ func ruleX3(p *Prog, r *Report) {
 					found = true
 				}
 			}
+			// ... or of a private helper whose error the check propagates
+			for _, g := range healthHelpers(p, h) {
+				for _, ret := range returnsOf(g) {
+					if c, _ := classifyReturn(ret); c == retError && controlDependsOnValue(g, ret.Block(), pr.cond) {
+						found = true
+					}
+				}
+			}
 			n++
 			r.Decide(found, R, "health-predicate:"+pr.name, p.Pos(h.Pos()), "an error return is control dependent on this predicate", "CheckStorageHealth no longer fails on this condition ("+pr.name+"): unhealthy storages of that kind would be accepted")
 		}
@@ -509,6 +517,25 @@ func ruleX3(p *Prog, r *Report) {
 					}
 					if ifi, ok := last.(*ssa.If); ok && ownerPred(canon(ifi.Cond)) {
 						return // owner comparison reached
+					}
+					// a helper that compares the owners on every one of its success paths
+					viaHelper := false
+					for _, y := range b.Instrs {
+						c, ok := y.(ssa.CallInstruction)
+						if !ok {
+							continue
+						}
+						for _, g := range healthHelpers(p, h) {
+							if staticCallee(c) == g && successReturnAvoiding(g, nil, func(z ssa.Instruction) bool {
+								i2, ok := z.(*ssa.If)
+								return ok && ownerPred(canon(i2.Cond))
+							}) == nil {
+								viaHelper = true
+							}
+						}
+					}
+					if viaHelper {
+						return
 					}
 					if ret, ok := last.(*ssa.Return); ok {
 						if c, _ := classifyReturn(ret); c != retError {
@@ -1329,4 +1356,39 @@ func blockInLoop(b, head *ssa.BasicBlock) bool {
 		return false
 	}
 	return b == head || canReachBlock(b, head)
+}
+
+// healthHelpers: unexported package-level functions that h calls and whose error result h tests and returns.
+func healthHelpers(p *Prog, h *ssa.Function) []*ssa.Function {
+	var out []*ssa.Function
+	seen := map[*ssa.Function]bool{}
+	eachInstr(h, func(in ssa.Instruction) {
+		c, ok := in.(*ssa.Call)
+		if !ok {
+			return
+		}
+		g := c.Call.StaticCallee()
+		if g == nil || g.Pkg != p.RootSSA || seen[g] || len(g.Blocks) == 0 || g.Object() == nil || g.Object().Exported() || !lastResultIsError(g) {
+			return
+		}
+		// the error result is tested and returned
+		var ev ssa.Value
+		if isErrorType(c.Type()) {
+			ev = c
+		} else if c.Referrers() != nil {
+			for _, ref := range *c.Referrers() {
+				if ex, ok := ref.(*ssa.Extract); ok && isErrorType(ex.Type()) {
+					ev = ex
+				}
+			}
+		}
+		if ev == nil {
+			return
+		}
+		if ok, _ := p.errorSurfaces(h, ev); ok {
+			seen[g] = true
+			out = append(out, g)
+		}
+	})
+	return out
 }
